@@ -41,16 +41,18 @@ TIERS = {
 def gen_plan(rng, index, tier):
     kind = ["single", "topdown", "bottomup"][index % 3]
     # reuse the scenario generators of C02 / C03 (general position), then mix frames
+    tiny = kind == "bottomup" and rng.random() < 0.2
     if kind == "bottomup":
-        base = c03.gen_plan(rng, index, tier)
+        base = c03.gen_plan(rng, index, tier, opts={"tiny": True} if tiny else None)
     else:
         base = c02.gen_plan(rng, 0 if kind == "single" else 1, tier)
     plan = base
     plan["kind"] = kind
+    plan["tiny"] = tiny
     mixed = "sizes" in plan and len({tuple(x) for x in plan["sizes"]}) > 1
     # more frames: re-draw animals by dropping from the generated ones
     frames = plan["frames"]
-    n = rng.randint(2, 8)
+    n = rng.randint(8, 12) if tiny else rng.randint(2, 8)
     out = []
     for k in range(n):
         src = copy.deepcopy(frames[k % len(frames)])
@@ -68,7 +70,7 @@ def gen_plan(rng, index, tier):
             fr["vid"] = src["vid"]
         out.append(fr)
     plan["frames"] = out
-    plan["batch"] = rng.choice([2, 2, 2, 3, 3, 4, 5, 6])
+    plan["batch"] = rng.randint(7, n) if tiny else rng.choice([2, 2, 2, 3, 3, 4, 5, 6])  # tiny: more frames per batch than PAF grid cells per side
     if kind != "single" and rng.random() < 0.2 and n >= 2 * plan["batch"]:
         # a whole batch without any detection, after a batch that had some (state kept from the previous batch must not leak in)
         b = plan["batch"]
@@ -77,7 +79,7 @@ def gen_plan(rng, index, tier):
             out[k]["animals"] = []
     plan["provider"] = "labels" if mixed else rng.choice(["labels", "labels", "video"])
     if plan["provider"] == "labels":
-        fidxs = list(range(10))
+        fidxs = list(range(14))
         rng.shuffle(fidxs)
         for i, fr in enumerate(plan["frames"]):
             if not mixed:
@@ -218,7 +220,7 @@ def execute(plan, choices=None):
     violations = []
     probes = {"frames_compared": 0, "batches_with_mixed_content": 0, "empty_frames_in_batch": 0, "max_instances_binding": 0,
               "partial_last_batch": 0, "fault_cut_stream": 0, "permuted_run_compared": 0, "two_videos": 0, "degenerate_tie_scene_skipped": 0,
-              "border_scene": int(bool(plan.get("border"))), "whole_batch_empty": 0, "mixed_frame_sizes": int("sizes" in plan and len({tuple(x) for x in plan["sizes"]}) > 1)}
+              "border_scene": int(bool(plan.get("border"))), "whole_batch_empty": 0, "batch_larger_than_paf_grid": int(bool(plan.get("tiny"))), "mixed_frame_sizes": int("sizes" in plan and len({tuple(x) for x in plan["sizes"]}) > 1)}
 
     def V(kind, where, detail):
         violations.append({"kind": kind, "sig": f"{kind}:{where}", "detail": detail})
